@@ -46,6 +46,8 @@ def poll_rules(ctx, which):
     ow = K.whole_value_overwrites(P, {adt})
     ctx.ob("%s|future-never-replaced-in-place" % tag, not ow,
            "no statement overwrites a live BroadcastFuture as a whole (that would reset the pending counter and the sub-future states)", ow or decs)
+    esc = K.field_escapes(P, adt, "pending_futures_count")
+    ctx.ob("%s|counter-not-borrowed-mutably" % tag, not esc, "no &mut / raw pointer to pending_futures_count is taken (direct assignments are its only writers)", esc or decs)
     ctx.ob("%s|two-decrement-sites" % tag, len(decs) == 2, "the pending counter is decremented at one site per pass (found %d)" % len(decs), decs)
     for d in decs:
         ok = False
